@@ -634,3 +634,57 @@ func (p *Prog) aliasOf(fn *Fn) map[types.Object]aliasTo {
 	}
 	return nil
 }
+
+// SoleDef returns the defining expression of a local variable that is assigned exactly once in the function
+// that declares it (`k := expr` or `k = expr`; not a parameter, range variable or multi-value assignment), else nil.
+func (p *Prog) SoleDef(fn *Fn, v types.Object) ast.Expr {
+	if fn == nil || v == nil {
+		return nil
+	}
+	root := fn.Root()
+	var def ast.Expr
+	n := 0
+	ast.Inspect(root.Body, func(m ast.Node) bool {
+		switch x := m.(type) {
+		case *ast.AssignStmt:
+			for i, l := range x.Lhs {
+				if id, ok := ast.Unparen(l).(*ast.Ident); ok && p.ObjOf(fn, id) == v {
+					n++
+					if len(x.Lhs) == len(x.Rhs) {
+						def = x.Rhs[i]
+					} else {
+						n++ // multi-value: not a plain definition
+					}
+				}
+			}
+		case *ast.RangeStmt:
+			for _, l := range []ast.Expr{x.Key, x.Value} {
+				if id, ok := l.(*ast.Ident); ok && p.ObjOf(fn, id) == v {
+					n += 2
+				}
+			}
+		case *ast.IncDecStmt:
+			if id, ok := ast.Unparen(x.X).(*ast.Ident); ok && p.ObjOf(fn, id) == v {
+				n += 2
+			}
+		case *ast.ValueSpec:
+			for i, id := range x.Names {
+				if p.ObjOf(fn, id) == v && len(x.Values) == len(x.Names) {
+					n++
+					def = x.Values[i]
+				}
+			}
+		case *ast.UnaryExpr:
+			if x.Op == token.AND {
+				if id, ok := ast.Unparen(x.X).(*ast.Ident); ok && p.ObjOf(fn, id) == v {
+					n += 2 // address taken
+				}
+			}
+		}
+		return true
+	})
+	if n == 1 {
+		return def
+	}
+	return nil
+}
